@@ -66,6 +66,19 @@ def d2(cx: Cx, ob: Ob) -> None:
     s = cx.summary(ph, ob.id)
     for t, ctx in s.returns():
         ob.site(f"{ph.where} {ph.qualname}", show(t)[:100])
+        if op(t) == "comp" and t[1] in ("list", "gen") and len(t[3]) == 1 and not t[3][0][2]:
+            # [key for key, _ in sorted(parts.items(), key=<second component>, reverse=True)]: the keys in the order of their values
+            from .c13 import _projection
+
+            tgt, it, _ = t[3][0]
+            first = (op(tgt) == "tuple" and len(tgt[1]) == 2 and t[2] == tgt[1][0]) or t[2] == ("item", tgt, ("const", 0))
+            if first and op(it) == "call" and it[1] == ("builtin", "sorted") and it[2] and op(it[2][0]) == "call" and callee_name(it[2][0]) == "items" and not it[2][0][2]:
+                kw = dict(it[3])
+                proj = _projection(cx, kw.get("key"))
+                if proj == ("idx", 1):
+                    if not is_const(kw.get("reverse"), True):
+                        ob.violate(ph.qualname, ph.where, "parse_header orders media types by ASCENDING q: the client's least preferred supported type wins", witness="'text/csv;q=0.1,application/json;q=0.9' negotiates CSV", detail="ascending")
+                    continue
         if not (op(t) == "call" and op(t[1]) == "builtin" and t[1][1] == "sorted" and t[2]):
             ob.undecide("parse_header does not return sorted(...)")
             continue
@@ -94,6 +107,8 @@ def d2(cx: Cx, ob: Ob) -> None:
             q = t[1][1]
             if is_const(q):
                 defaults.add(q[1])
+            elif op(q) == "call" and q[1] == ("builtin", "next") and len(q[2]) == 2 and is_const(q[2][1]) and isinstance(q[2][1][1], (int, float)):
+                defaults.add(q[2][1][1])  # next(<q values>, default)
             elif op(q) == "phi":
                 # a local default overwritten inside a loop: `quality = 1.0` ... `for ...: quality = float(..)`
                 for ev, _ in hs.walk():
